@@ -163,14 +163,23 @@ FAULTABLE = ('set_recipients_delivered', 'increment_attempts', 'set_timestamp')
 
 # neighbours differ in exactly one component: enhanced status code only, reply code only, text only
 # (reply text is UTF-8 on the wire: the last entry of each table is not ASCII)
-FAIL_REPLIES_PERM = [('550', '5.1.1 rejected'), ('550', '5.7.1 rejected'), ('554', '5.7.1 rejected'), ('550', '5.1.1 Empf\u00e4nger unbekannt')]
-FAIL_REPLIES_TEMP = [('450', '4.2.0 try later'), ('450', '4.2.1 try later'), ('451', '4.2.1 try later'), ('450', '4.2.0 sp\u00e4ter')]
-NREP = 4
+# the fifth entry of each table is a reply *without* an enhanced status code (as the banner and EHLO replies of the SMTP client
+# are: `enhanced_status_code = False`), which must be quoted as it is
+FAIL_REPLIES_PERM = [('550', '5.1.1 rejected'), ('550', '5.7.1 rejected'), ('554', '5.7.1 rejected'), ('550', '5.1.1 Empf\u00e4nger unbekannt'),
+                     ('554', 'Transaction failed')]
+FAIL_REPLIES_TEMP = [('450', '4.2.0 try later'), ('450', '4.2.1 try later'), ('451', '4.2.1 try later'), ('450', '4.2.0 sp\u00e4ter'),
+                     ('421', 'Service not available')]
+NREP = 5
 
 
 def _built(code, text, pos):
     """The same reply built in two ways: a Reply renders the class of its enhanced status code from the reply code, so
     Reply('550', '2.1.1 x') and Reply('550', '5.1.1 x') are one and the same reply (equal, same bytes)."""
+    if not re.match(r'^\d\.\d+\.\d+ ', text):
+        r = Reply(code)
+        r.enhanced_status_code = False
+        r.message = text
+        return r
     if pos % 2:
         text = '2' + text[1:]
     return Reply(code, text)
@@ -708,6 +717,14 @@ class Engine(object):
                 vals.append(TransientRelayError('temp', self._reply(c, t, pos)))
         if shape == 'seq':
             return vals
+        if spec.get('rev'):
+            # a relay that fills in its result mapping in another order than the envelope lists the recipients
+            # (per destination, as results come in): the mapping is keyed by address, its order means nothing
+            pairs = list(zip(rcpts, vals))
+            first = {}
+            for r_, v_ in pairs:
+                first.setdefault(r_, v_)
+            return dict((r_, dict(pairs)[r_]) for r_ in reversed(list(first)))
         return dict(zip(rcpts, vals))
 
     def expect_bounce(self, m, rcpts, rep):
